@@ -158,3 +158,66 @@ Proof.
   - rewrite <- (firstn_skipn k W) in Hf at 1. rewrite app_length in Hf. lia.
 Qed.
 End Queue.
+
+(* ---------- verifier mode: every delivered chunk is the genuine window ---------- *)
+From TD Require Import Proof.Cdn.
+
+Section VerifierMode.
+Variable sha : list Z -> list Z.
+Variable file : list Z.
+Notation size := (zlen file).
+
+Lemma gen_beyond w : size <= w_off w -> gen file w = [].
+Proof.
+  intros H. unfold gen, slice.
+  replace (Z.to_nat (Z.min (w_off w + w_limit w) size - w_off w)) with 0%nat by lia. reflexivity.
+Qed.
+
+Lemma concat_gen : forall W off, 0 <= off -> contig off W -> size <= end_of off W ->
+  concat (map (gen file) W) = skipn (Z.to_nat off) file.
+Proof.
+  induction W as [|w t IH]; intros off Hoff Hc He.
+  - cbn in *. symmetry. apply skipn_all2. unfold zlen in He. lia.
+  - cbn in Hc. destruct Hc as (H0 & H1 & H2). cbn [map concat end_of] in *.
+    rewrite (IH (off + w_limit w)) by (auto; lia).
+    unfold gen, slice. rewrite H0.
+    destruct (Z.le_gt_cases size off) as [Hb|Hb].
+    + replace (Z.to_nat (Z.min (off + w_limit w) size - off)) with 0%nat by lia. cbn [firstn app].
+      rewrite !skipn_all2; auto; unfold zlen in *; lia.
+    + destruct (Z.le_gt_cases (off + w_limit w) size) as [Hs|Hs].
+      * rewrite Z.min_l by lia. replace (off + w_limit w - off) with (w_limit w) by lia.
+        replace (Z.to_nat (off + w_limit w)) with (Z.to_nat off + Z.to_nat (w_limit w))%nat by lia.
+        etransitivity; [|apply (firstn_skipn (Z.to_nat (w_limit w)) (skipn (Z.to_nat off) file))].
+        f_equal. generalize (Z.to_nat off) as a, (Z.to_nat (w_limit w)) as b. clear. intros a b.
+        revert file. induction a as [|a IHa]; intros l; [reflexivity|]. destruct l; cbn; [destruct b; reflexivity|apply IHa].
+      * rewrite Z.min_r by lia. rewrite (@skipn_all2 _ (Z.to_nat (off + w_limit w)) file) by (unfold zlen in *; lia). rewrite app_nil_r.
+        apply firstn_all2. rewrite skipn_length. unfold zlen in *. lia.
+Qed.
+
+(* hashes of the master DC, no second preimage for the genuine windows *)
+Variable W : list hwin.
+Hypothesis HW : contig 0 W.
+Hypothesis Hcover : size <= end_of 0 W.
+Hypothesis hashes_honest : forall w, In w W -> w_hash w = sha (gen file w).
+Hypothesis no_collision : forall w V, In w W -> sha V = sha (gen file w) -> V = gen file w.
+
+Theorem verified_chunk_genuine w data : In w W -> vq_verify sha w data = true -> data = gen file w.
+Proof.
+  intros Hin Hv. unfold vq_verify in Hv. apply bytes_eqb_eq in Hv.
+  apply no_collision; [exact Hin|]. rewrite Hv. apply hashes_honest; exact Hin.
+Qed.
+
+(* the windows in queue order, each with the chunk that passed verify: the output is the file *)
+Theorem verified_download_is_file (chunks : list (hwin * list Z)) :
+  map fst chunks = W ->
+  Forall (fun c => vq_verify sha (fst c) (snd c) = true) chunks ->
+  concat (map snd chunks) = file.
+Proof.
+  intros Hm Hf.
+  assert (map snd chunks = map (gen file) W) as ->.
+  { rewrite <- Hm. rewrite map_map. apply map_ext_in. intros c Hc.
+    rewrite Forall_forall in Hf. apply verified_chunk_genuine; [|apply Hf; exact Hc].
+    rewrite <- Hm. apply in_map. exact Hc. }
+  rewrite (concat_gen W 0 ltac:(lia) HW Hcover). reflexivity.
+Qed.
+End VerifierMode.
